@@ -198,6 +198,9 @@ int FsDropInService::prepDropInWatcherEventLoop(const std::string& dir) {
 int FsDropInService::prepDropInWatcher(const std::string& dir) {
   if (!Fs::isDir(dir)) {
     OLOG << "Error: " << dir << " is not a directory";
+    // Whatever was loaded from it went with it (we may have missed the events)
+    std::lock_guard<std::mutex> lock(event_loop_mutex_);
+    resyncDropInDir();
     return 1;
   }
 
@@ -215,14 +218,8 @@ int FsDropInService::prepDropInWatcher(const std::string& dir) {
     return 1;
   }
 
-  auto de = Fs::readDir(dir, Fs::DE_FILE);
-  // TODO(dschatzberg): Report error
-  if (de) {
-    std::sort(de->files.begin(), de->files.end()); // Provide some determinism
-    for (const auto& config : de->files) {
-      processDropInAdd(config);
-    }
-  }
+  // Forget what is gone, (re)load what is there, in name order
+  resyncDropInDir();
 
   return 0;
 }
@@ -281,11 +278,13 @@ void FsDropInService::processDropInAdd(const std::string& file) {
   }
 }
 
-// The kernel dropped events (IN_Q_OVERFLOW): we no longer know what happened
-// to which file. Forget every file that is gone and reload the ones present.
+// Bring the engine in line with the directory as it is now: drop ins whose file
+// is gone are removed, every file present is (re)loaded, in name order. Used
+// whenever we may have missed events: when the watch is (re)armed - at start,
+// after the directory was re-created, after an inotify queue overflow.
 void FsDropInService::resyncDropInDir() {
-  OLOG << "inotify queue overflowed, rescanning " << drop_in_dir_;
   std::set<std::string> present;
+  // TODO(dschatzberg): Report error
   if (auto de = Fs::readDir(drop_in_dir_, Fs::DE_FILE)) {
     present.insert(de->files.begin(), de->files.end());
   }
@@ -319,9 +318,7 @@ int FsDropInService::processDropInWatcher(int fd) {
          ptr += sizeof(struct inotify_event) + event->len) {
       event = reinterpret_cast<const struct inotify_event*>(ptr);
 
-      if (event->mask & IN_Q_OVERFLOW) {
-        resyncDropInDir();
-      } else if (event->mask & (IN_MOVED_TO | IN_MODIFY)) {
+      if (event->mask & (IN_MOVED_TO | IN_MODIFY)) {
         // Remove and re-add drop in if a file has been added to the
         // watched directory
         processDropInAdd(event->name);
@@ -329,9 +326,13 @@ int FsDropInService::processDropInWatcher(int fd) {
         // Remove drop in if file has been moved from or removed from
         // the watched directory
         processDropInRemove(event->name);
-      } else if (event->mask & (IN_DELETE_SELF | IN_MOVE_SELF)) {
+      } else if (
+          event->mask & (IN_DELETE_SELF | IN_MOVE_SELF | IN_Q_OVERFLOW)) {
         // Remove stale watch descriptor for drop in if watched file or
-        // directory itself is moved or deleted
+        // directory itself is moved or deleted. Likewise if the kernel dropped
+        // events (queue overflow): anything may have happened meanwhile,
+        // including to the directory itself. The main loop arms a new watch
+        // and re-scans the directory.
         if (deregisterDropInWatcherFromEventLoop()) {
           return 1;
         }
